@@ -77,7 +77,7 @@ def build_harness():
 
 # extra property modules per property: (module under Garnish.Props, namespace to list, regex on the short name or None)
 AUDIT_EXTRA = {
-    'C01': [('C01Compile', 'Garnish.Props.C01', None)],
+    'C01': [('C01Compile', 'Garnish.Props.C01', None), ('C01Build', 'Garnish.Props.C01Build', None)],
     'C06': [('C06Static', 'Garnish.Props.C06', None)],
     'C10': [('C01Compile', 'Garnish.Props.C01', r'^(C10_|C01_compile_correct$)'), ('C10Compile', 'Garnish.Props.C10', None)],
     'C17': [('C01Compile', 'Garnish.Props.C01', r'^(C17_|C01_compile_correct$|compile_env$)')],
@@ -395,6 +395,11 @@ class Ctx:
 def standard_proof_obligations(ctx, lean_targets=None):
     """regenerate tables, build the property's theorems and the driver, audit axioms. Fills ctx.obligations."""
     prop = ctx.prop
+    if os.environ.get('VERIF_DEV_SKIP_PROOFS') == '1':
+        # development sweeps over many seeds only (never used by a registered command): generators and oracles with the
+        # driver and harness binaries as they are
+        ctx.notes.append('VERIF_DEV_SKIP_PROOFS=1: proof obligations not re-checked in this run')
+        return os.path.exists(DRV), os.path.exists(HBIN)
     ok, out = gen_tables()
     ctx.oblige('gen_tables', 'translator', ok, out[-2000:] if not ok else '')
     ok, out = build_lean(audit_modules(prop) + (lean_targets or []))
